@@ -55,6 +55,11 @@ def run(ck: Checker, prog: Program, tier: str):
     ck.guard(_r5, ck, prog)
     ck.guard(_r6, ck, prog)
     ck.guard(_invariant_families, ck, prog)
+    # the deployed orientation a reader reports is the one the orientation step starts from (rules of C07)
+    from . import c07
+    with ck.borrow(c07, P + "R6+"):
+        c07._PROG[0] = prog
+        ck.guard(c07._saf, ck, prog)
     # invariance of the bound formulas presupposes that ns and ew reach them through the same taper and transform
     from . import c01
     with ck.borrow(c01, "C04.R3+"):
